@@ -200,7 +200,7 @@ def _parse_tlc(res):
     elif "Error: Action property" in out:
         m2 = re.search(r"Error: Action property (\w+)", out)
         res.violation = "action-property " + (m2.group(1) if m2 else "?")
-    elif "Temporal properties were violated" in out:
+    elif "Temporal properties were violated" in out or re.search(r"Temporal property \w+ was violated", out):
         res.violation = "temporal"
     elif "Deadlock reached" in out:
         res.violation = "deadlock"
@@ -274,6 +274,23 @@ def validate_trace(module, cfg, trace_path, n_events, timeout=900, xmx="8g", mod
         if res.violation and res.violation != "postcondition":
             return False, matched, res
         return matched == n_events, matched, res
+    elif mode == "max":
+        # trace spec with internal steps, acceptance by the highest position reached (a TLCSet register
+        # updated from a CONSTRAINT, printed by the POSTCONDITION): no counterexample has to be printed
+        res = run_tlc(module, cfg, workers=1, env=env, timeout=timeout, xmx=xmx)
+        matched = None
+        for ln in res.prints:
+            m = re.match(r'<<"TRACE_MAXL", (-?\d+)>>', ln)
+            if m:
+                matched = max(int(m.group(1)), 0)
+        if res.violation and res.violation != "postcondition":
+            ls = re.findall(r"^/\\ l = (\d+)", res.out, re.M)
+            return False, max(int(ls[-1]) - 2, 0) if ls else 0, res
+        if res.error and matched is None:
+            raise ToolFailure(f"trace validation {module} failed to run:\n{res.error}")
+        if matched is None:
+            raise ToolFailure(f"trace validation {module}: no TRACE_MAXL line:\n{res.out[-3000:]}")
+        return matched == n_events, matched, res
     else:
         res = run_tlc(module, cfg, workers=1, env=env, timeout=timeout, xmx=xmx, deque=True)
         if res.error:
@@ -281,7 +298,10 @@ def validate_trace(module, cfg, trace_path, n_events, timeout=900, xmx="8g", mod
         if res.violation == "invariant NotAccepted":
             return True, n_events, res
         if res.violation:
-            return False, max(res.depth - 1, 0), res
+            # another invariant was violated while replaying: the last state of TLC's error trace tells how
+            # far the trace had been consumed (l = position of the next event)
+            ls = re.findall(r"^/\\ l = (\d+)", res.out, re.M)
+            return False, max(int(ls[-1]) - 2, 0) if ls else 0, res
         matched = 0
         for ln in res.prints:
             m = re.match(r'<<"TRACE_MAXL", (\d+)>>', ln)
